@@ -22,6 +22,7 @@ RULE = ("random histories of EMCY frames (codes over the 16-bit range biased to 
         "compared with a reference model; description table: all 65536 codes; waits with and without code filter. "
         "Signature = (op kind, code class, active-list state class); non-trivial = history has at least one reset.")
 RULE += (" " + 'Widened later: time stamps 0, byte-identical repeats, trickle of non-matching frames (early give-up), arrival race and waiter-held-after-critical-section under schedule control, callbacks that wait for the waiter, stale matching entry before a filtered wait.')
+RULE += (" " + "Widened later: long histories (700 / 3000 frames on one consumer without a consumer reset).")
 ASSUMPTIONS = ["EMCY frames are 8 bytes (other lengths are not EMCY objects)",
                "descriptions are compared by class keyword, not by exact wording",
                "waits: frames are delivered one at a time after the waiter is inside wait() (the property quantifies over histories, not bursts)"]
